@@ -17,6 +17,8 @@ class VariableBoundMinPropagator(VariableBoundPropagator):
     def propagate(self):
         # Obtain the max value from the
         min_v = self.min()
+        if min_v is None:
+            return False
         
         range_l = self.target.domain.range_l
         
@@ -38,7 +40,7 @@ class VariableBoundMinPropagator(VariableBoundPropagator):
                 must_propagate = True
                 self.target.domain.range_l = range_l[i:]
 
-            if min_v > range_l[0][0]:
+            if len(range_l) > 0 and min_v > range_l[0][0]:
                 range_l[0][0] = min_v
                 must_propagate = True
         else:
